@@ -54,14 +54,14 @@ type topoState struct {
 }
 
 type topoEvent struct {
-	Ev    string     `json:"ev"`
-	K     *int       `json:"k,omitempty"`
-	D     *int       `json:"d,omitempty"`
-	E0    *string    `json:"e0,omitempty"`
-	E1    *string    `json:"e1,omitempty"`
-	Bid   *int       `json:"bid,omitempty"`
-	Dname *string    `json:"dname,omitempty"`
-	Post  *topoState `json:"post"`
+	Ev    string                 `json:"ev"`
+	K     *int                   `json:"k,omitempty"`
+	D     *int                   `json:"d,omitempty"`
+	E0    *string                `json:"e0,omitempty"`
+	E1    *string                `json:"e1,omitempty"`
+	Bid   *int                   `json:"bid,omitempty"`
+	Dname *string                `json:"dname,omitempty"`
+	Post  *topoState             `json:"post"`
 	Extra map[string]interface{} `json:"extra,omitempty"`
 }
 
